@@ -188,6 +188,13 @@ fn run_long(a: &Args, roots: &[String], rng: &mut StdRng, out: &mut impl Write) 
             emit(out, "undo", None, &game);
             continue;
         }
+        // a pass now and then (never in check, never twice in a row), as a search does
+        if rng.gen_bool(0.04) && !game.is_king_in_check() && game.history.last().map_or(true, |h| h.mv.is_some()) {
+            if !guarded(out, "null", None, &mut game, Game::make_null_move) {
+                return;
+            }
+            continue;
+        }
         // keep material on the board for a while: captures only now and then
         let quiet: Vec<Move> = moves.iter().copied().filter(|m| !m.is_capture()).collect();
         let mv = if !quiet.is_empty() && !rng.gen_bool(0.05) {
@@ -200,7 +207,12 @@ fn run_long(a: &Args, roots: &[String], rng: &mut StdRng, out: &mut impl Write) 
         }
     }
     while !game.history.is_empty() {
-        if !guarded(out, "undo", None, &mut game, Game::undo_move) {
+        let ok = if game.history.last().unwrap().mv.is_none() {
+            guarded(out, "undonull", None, &mut game, Game::undo_null_move)
+        } else {
+            guarded(out, "undo", None, &mut game, Game::undo_move)
+        };
+        if !ok {
             return;
         }
     }
